@@ -368,7 +368,10 @@ func init() {
 				c.Server.MW = append(c.Server.MW, MWSpec{})
 			}
 			if nmw > 0 && r.Chance(1, 4) {
-				c.Server.MW[r.Intn(nmw)].Fail = true
+				k := r.Intn(nmw)
+				c.Server.MW[k].Fail = true
+				// (a failure is a failure, also when it looks transient: a timeout)
+				c.Server.MW[k].Transient = r.Chance(1, 3)
 			}
 			c.Server.Term = r.Pick("", "ok", "ok", "fail")
 			if r.Chance(1, 4) {
@@ -517,6 +520,7 @@ func genC12(r *Rand, tier string) *Case {
 		c.Server.Auth = "cleartext"
 	}
 	genGlobalParams(r, c)
+	c.Server.CloseHook = r.Chance(1, 3)
 	c.Conns = []ConnCase{genC12One(r, c, "u"+r.Ident(3))}
 	if r.Chance(1, 5) {
 		// further connections served one after the other by the same server:
